@@ -69,6 +69,18 @@ RICH = [
      "external_choices": [{"list_name": "e", "name": "a", "label": "A", "state": "s1"}, {"list_name": "e", "name": "b", "label": "B", "state": "s2"}],
      "entities": [{"list_name": "trees", "label": "${ent}"}],
      "settings": [{"form_id": "ext", "namespaces": 'zz="http://zz.example"'}]},
+    # yes/no flags: settings that switch behaviour, rows switched off with the (deprecated) disabled column
+    {"survey": [
+        {"type": "text", "name": "a", "label": "A  a", "disabled": "no"},
+        {"type": "text", "name": "b", "label": "B", "disabled": "yes"},
+        {"type": "select_one c", "name": "s", "label": "S", "required": "yes"},
+        {"type": "begin group", "name": "g", "label": "G", "disabled": "yes"},
+        {"type": "end group", "disabled": "yes"},
+        {"type": "text", "name": "z", "label": "Z", "read_only": "true()"}],
+     "choices": [{"list_name": "c", "name": "x", "label": "X"}, {"list_name": "c", "name": "x", "label": "X2"}],
+     "settings": [{"omit_instanceID": "yes", "allow_choice_duplicates": "yes", "clean_text_values": "no"}]},
+    {"survey": [{"type": "text", "name": "a", "label": "A"}],
+     "settings": [{"omit_instanceID": "no", "allow_choice_duplicates": "no", "clean_text_values": "yes", "form_title": "T"}]},
 ]
 
 # ---------------------------------------------------------------- transformations ----
@@ -201,12 +213,20 @@ def t_type_alias(wb):
 
 def t_truth(wb):
     for i, r in enumerate(wb["survey"]):
-        for col in ("required", "read_only"):
+        for col in ("required", "read_only", "disabled"):
             v = r.get(col)
             for alt in TRUTH.get(v, []):
                 w = copy.deepcopy(wb)
                 w["survey"][i][col] = alt
                 yield f"truth:{i}:{col}:{alt}", w, {}
+    # yes/no flags of the settings sheet
+    for i, r in enumerate(wb.get("settings", [])):
+        for col in ("omit_instanceID", "allow_choice_duplicates", "clean_text_values"):
+            v = r.get(col)
+            for alt in TRUTH.get(v, []):
+                w = copy.deepcopy(wb)
+                w["settings"][i][col] = alt
+                yield f"truth:settings:{col}:{alt}", w, {}
 
 
 def t_quotes(wb):
@@ -228,6 +248,9 @@ def t_quotes(wb):
 
 
 def t_spaces(wb):
+    # precondition: whitespace cleaning is documented to be switched off by clean_text_values=no
+    if any(str(r.get("clean_text_values", "yes")).lower() in ("no", "false", "false()") for r in wb.get("settings", [])):
+        return
     for i, r in enumerate(wb["survey"]):
         for k, v in r.items():
             if not isinstance(v, str) or not v:
